@@ -110,6 +110,9 @@ func (x *Exec) frameDo(st *State, where string, assumeOnly map[string]bool) {
 		if loc == "*" {
 			return
 		}
+		if loc == "fresh(*)" { // objects allocated during the call are outside every frame condition anyway
+			continue
+		}
 		if i := strings.Index(loc, "("); i > 0 && strings.HasSuffix(loc, ")") {
 			if g, ok := x.P.Ghosts[loc[:i]]; ok {
 				inner := strings.TrimSpace(loc[i+1 : len(loc)-1])
@@ -168,6 +171,18 @@ func (x *Exec) frameDo(st *State, where string, assumeOnly map[string]bool) {
 			x.fatal("modifies %q: cannot resolve", loc)
 		default:
 			ok := false
+			if x.fn != nil { // a captured variable of a function literal verified on its own
+				for _, fv := range x.fn.FreeVars {
+					if fv.Name() == loc && !isAggregate(deref(fv.Type())) {
+						hn, _ := x.ptrHeap(deref(fv.Type()))
+						ds = append(ds, desig{heap: hn, idx: []smt.T{x.ctx.Const("fv$"+fv.Name(), smt.Int)}})
+						ok = true
+					}
+				}
+			}
+			if ok {
+				continue
+			}
 			if i := strings.LastIndex(loc, "."); i > 0 {
 				e, err := x.evalTyped(mustParse(loc[:i]), ectx)
 				if err == nil && e.typ != nil {
